@@ -17,6 +17,15 @@ def explain_chunk(name: bytes, old: bytes, new: bytes, all_old: dict):
             want = bytes(1 if any(up[-1][20 * i:20 * i + 20]) else 0 for i in range(64))
             if new == want:
                 return "upus-recomputed"
+    if name == b"SWNM" and len(old) == 1024 and len(new) == 1024 and all_old.get(b"STR "):
+        strp = all_old[b"STR "][-1]
+        ok = True
+        for k in range(256):
+            o, n_ = int.from_bytes(old[4 * k:4 * k + 4], "little"), int.from_bytes(new[4 * k:4 * k + 4], "little")
+            if o != n_ and not (n_ == 0 and o != 0 and S.spec_resolve_string("STR ", strp, o) == b""):
+                ok = False
+        if ok:
+            return "swnm-empty-name-zeroed"
     if name in (b"UNIS", b"UNIx") and len(old) == len(new):
         nw = 100 if name == b"UNIS" else 130
         base = len(old) - 4 * nw
